@@ -399,7 +399,8 @@ static char *hexdup(const char *p, size_t n) {
 static void print_parsed(const request_st *r) {
     if (0 != r->http_status) {
         printf("err %d%s m=%d v=%d", r->http_status, (r->keep_alive != 0 || r->reqbody_length != 0) ? " NOT-CLOSED" : "",
-               (int)r->http_method, (int)r->http_version);   /* what the error response reads */
+               (int)r->http_method < 0 ? -1 : (int)r->http_method,   /* (HTTP_METHOD_PRI = -2 and UNSET = -1: no method) */
+               (int)r->http_version);                       /* what the error response reads */
         return;
     }
     const buffer *m = http_method_buf(r->http_method);
